@@ -132,6 +132,10 @@ def case(ctx, rng, idx, state):
         # a quarter of the cases: groups whose operations shear the reduced axes (centred lattices in primitive
         # setting): there anisotropic NKdiv/NKFFT splits are symmetric although the axes are mixed
         sheared = rng.random() < 0.3
+        adjusted_grid = (mode == "klist" and idx % 10 == 1)   # NK and NKFFT chosen independently: determineNK has to round NK/NKFFT
+        aniso_fft = (mode == "klist" and idx % 10 == 6)       # sheared group with different FFT sizes along the mixed axes
+        if adjusted_grid or aniso_fft:
+            sheared = True
         entry = gen_pg.pick(rng, sheared=sheared)
         tr = ["none", "grey", "bw"][int(rng.integers(3))]
         gens = gen_pg.make_generators(entry["gens"], time_reversal=tr, rng=rng)
@@ -150,12 +154,34 @@ def case(ctx, rng, idx, state):
         force = entry["mixed"] if (rng.random() < 0.5 and not sheared) else ()
         div = gen_pg.symmetric_sizes(pg, rng, nmax=nmax if mode == "klist" else 3, mixed=force)
         fft = gen_pg.symmetric_sizes(pg, rng, nmax=3 if mode == "klist" else 2, mixed=force)
+        if (adjusted_grid or aniso_fft) and len(entry["mixed"]) > 1:
+            for _ in range(30):    # sizes that differ along the mixed axes (accepted by the group in these settings)
+                if np.any(fft[list(entry["mixed"])] != fft[entry["mixed"][0]]):
+                    break
+                fft = gen_pg.symmetric_sizes(pg, rng, nmax=3, mixed=())
+            if aniso_fft:
+                for _ in range(30):
+                    if np.prod(div) > 1:
+                        break
+                    div = gen_pg.symmetric_sizes(pg, rng, nmax=nmax, mixed=())
         wit = dict(mode=mode, group=entry["name"], tr=tr, lattice=lattice, NKdiv=div, NKFFT=fft)
         how = "NKdiv,NKFFT"
-        if mode == "klist" and rng.random() < 0.35:
+        if mode == "klist" and (adjusted_grid or rng.random() < 0.35):
             # the other documented ways of specifying the grid: whatever split determineNK chooses must be a symmetric grid that partitions the BZ
             how = ["NK", "NK,NKFFT", "length", "length,NKFFT", "NK_scalar"][int(rng.integers(5))]
             NK = div * fft
+            if adjusted_grid:
+                how = "NK,NKFFT"
+                NK = gen_pg.symmetric_sizes(pg, rng, nmax=6, mixed=())
+                if len(entry["mixed"]) > 1 and rng.random() < 0.7:
+                    # equal odd sizes along the mixed axes, FFT sizes 1 and 2 there: rounding NK/NKFFT breaks the equality
+                    a, b = entry["mixed"][:2]
+                    NK2, fft2 = NK.copy(), fft.copy()
+                    NK2[[a, b]] = int(rng.choice([3, 5]))
+                    fft2[a], fft2[b] = (1, 2) if rng.random() < 0.5 else (2, 1)
+                    if pg.symmetric_grid(NK2) and pg.symmetric_grid(fft2):
+                        NK, fft = NK2, fft2
+                ctx.count("grid_NK_not_multiple_of_NKFFT", int(np.any(NK % fft != 0)))
             import warnings
             with warnings.catch_warnings():
                 warnings.simplefilter("ignore")
@@ -328,7 +354,7 @@ if __name__ == "__main__":
              "non-trivial = symmetry reduced the list / at least one cell was divided; distinct by the full parameter tuple",
         assumptions=["oracle = brute-force rasterisation and point-sampled density with the group acting on full-BZ reduced k, matrices computed by the harness "
                      "from the cartesian rotation and the TR/inversion flags", "random probe points are generic (cell boundaries have measure zero)"],
-        required_counters=("grid_specified_by_NK_or_length", "klist_cases", "refinement_histories", "tetra_histories", "mon:divide_calls", "mon:divide_tetra_calls",
+        required_counters=("grid_specified_by_NK_or_length", "grid_NK_not_multiple_of_NKFFT", "klist_cases", "refinement_histories", "tetra_histories", "mon:divide_calls", "mon:divide_tetra_calls",
                            "histories_with_symmetry_merges", "density_oracle_cases", "mon:merge_equivalence_checked",
                            "anisotropic_FFT_on_mixed_axes"),
     )
